@@ -109,6 +109,8 @@ def exc_code(exc):
         return 12
     if isinstance(exc, TimeoutError):
         return 11
+    if isinstance(exc, K.TransportSpin):
+        return 13        # the code under test polls a connection which has ended (the harness transport stopped the loop)
     return K.classify(exc)
 
 
@@ -1575,6 +1577,9 @@ def oracle(inp):
     hs_ok = results and results[0][1] == 0
     trunc = _truncated(info, cfg)
     eofs = [res for res in recv_results if res[1] == 0 and res[2] == 0]
+    if any(res[1] == 1 and res[2] == 13 for res in recv_results):
+        return (f"the underlying connection ended (cut at {cfg.get('cut')}) and the reader got neither an error nor end-of-stream: "
+                "recv() keeps reading the ended connection in a loop which never ends")
     # ASSUMPTION of the property: the context has OP_IGNORE_UNEXPECTED_EOF cleared; with the option set OpenSSL itself
     # answers read() -> b"" at a truncation (those cases stay in the correspondence, the property is not stated on them)
     if std and trunc and eofs and not cfg.get("ign"):
